@@ -98,7 +98,23 @@ IDENT = {
     "drexp": ("C04", "dr_exp(a) == sum (-1)^k ad(a)^k / (k+1)!"),
     "drinv": ("C04", "dr_expinv(a) dr_exp(a) == I"),
     "unitnorm": ("C15", "|rotation coefficients of exp(a)|^2 == 1"),
+    # layer identities: library function against library function (the right-hand ones are tied to their definitions by the identities above)
+    "fw_drexp": ("C04", "smooth::dr_exp<G>(a) (free function through traits::lie<G>) == G::dr_exp(a)"),
+    "fw_drinv": ("C04", "smooth::dr_expinv<G>(a) == G::dr_expinv(a)"),
+    "lr_drexp": ("C04", "smooth::dl_exp<G>(a) == G::dl_exp(a) == G::dr_exp(-a)"),
+    "lr_drinv": ("C04", "smooth::dl_expinv<G>(a) == G::dl_expinv(a) == G::dr_expinv(-a)"),
+    "rm_dr": ("C04", "dr_rminus<G>(e) == G::dr_expinv(e)"),
+    "rm_sq": ("C04", "dr_rminus_squarednorm<G>(e) == e^T G::dr_expinv(e)"),
+    "fw_d2rexp": ("C05", "smooth::d2r_exp<G>(a) == G::d2r_exp(a)"),
+    "fw_d2rinv": ("C05", "smooth::d2r_expinv<G>(a) == G::d2r_expinv(a)"),
+    "lr_d2rexp": ("C05", "smooth::d2l_exp<G>(a) == G::d2l_exp(a) == -G::d2r_exp(-a)"),
+    "lr_d2rinv": ("C05", "smooth::d2l_expinv<G>(a) == G::d2l_expinv(a) == -G::d2r_expinv(-a)"),
 }
+LAYER2 = {"fw_drexp": ("smooth::dr_exp<GT>(a)", None, "GT::dr_exp(a)"), "fw_drinv": ("smooth::dr_expinv<GT>(a)", None, "GT::dr_expinv(a)"),
+          "lr_drexp": ("smooth::dl_exp<GT>(a)", "GT::dl_exp(a)", "GT::dr_exp(-a)"), "lr_drinv": ("smooth::dl_expinv<GT>(a)", "GT::dl_expinv(a)", "GT::dr_expinv(-a)"),
+          "rm_dr": ("smooth::dr_rminus<GT>(e)", None, "GT::dr_expinv(a)"),
+          "fw_d2rexp": ("smooth::d2r_exp<GT>(a)", None, "GT::d2r_exp(a)"), "fw_d2rinv": ("smooth::d2r_expinv<GT>(a)", None, "GT::d2r_expinv(a)"),
+          "lr_d2rexp": ("smooth::d2l_exp<GT>(a)", "GT::d2l_exp(a)", "-GT::d2r_exp(-a)"), "lr_d2rinv": ("smooth::d2l_expinv<GT>(a)", "GT::d2l_expinv(a)", "-GT::d2r_expinv(-a)")}
 
 # where the unit complex number / unit quaternion sits in coeffs()
 ROT_COEFFS = {"SO2d": (0, 2), "SO3d": (0, 4), "SE2d": (2, 2), "SE3d": (3, 4)}
@@ -128,6 +144,29 @@ def witnesses(gs, names):
             elif nm == "drinv":
                 body = om("m1", "GT::Dof", "GT::Dof") + om("m2", "GT::Dof", "GT::Dof") + "  m1 = GT::dr_expinv(a);\n  m2 = GT::dr_exp(a);\n"
                 shp = ((g.dof, g.dof), (g.dof, g.dof))
+            elif nm in LAYER2 or nm == "rm_sq":
+                second = "d2" in nm
+                if second and not has_hessian(g):
+                    continue
+                cols = "GT::Dof * GT::Dof" if second else "GT::Dof"
+                ncols = g.dof * g.dof if second else g.dof
+                if nm == "rm_sq":
+                    if g.dof >= 8:
+                        continue      # Eigen evaluates e^T J with its run-time gemv kernel (outside the series domain)
+                    body = (om("m1", "1", "GT::Dof") + om("m2", "1", "GT::Dof") + "  const typename GT::Tangent e = a;\n"
+                            "  m1 = smooth::dr_rminus_squarednorm<GT>(e);\n  const Eigen::Matrix<double, GT::Dof, GT::Dof> J = GT::dr_expinv(a);\n"
+                            "  for (int c = 0; c < GT::Dof; ++c) { double acc = 0; for (int r = 0; r < GT::Dof; ++r) acc += e(r) * J(r, c); m2(0, c) = acc; }\n")
+                    shp = ((1, g.dof), (1, g.dof))
+                    W.add("ray_%s_%s" % (g.key, nm), sig, pre + body, g=g, name=nm, shape=shp)
+                    continue
+                lhs, mid, rhs = LAYER2[nm]
+                body = om("m1", "GT::Dof", cols) + om("m2", "GT::Dof", cols) + "  const typename GT::Tangent e = a;\n  m1 = %s;\n  m2 = %s;\n" % (lhs, rhs)
+                shp = ((g.dof, ncols), (g.dof, ncols))
+                W.add("ray_%s_%s" % (g.key, nm), sig, pre + body, g=g, name=nm, shape=shp)
+                if mid:
+                    body = om("m1", "GT::Dof", cols) + om("m2", "GT::Dof", cols) + "  m1 = %s;\n  m2 = %s;\n" % (mid, rhs)
+                    W.add("ray_%s_%s_cls" % (g.key, nm), sig, pre + body, g=g, name=nm, shape=shp)
+                continue
             elif nm == "unitnorm":
                 if g.key not in ROT_COEFFS:
                     continue
@@ -213,7 +252,7 @@ def expected(nm, M1, M2, order):
         return M1, rays.power_sum(M2, lambda k: Fraction(1, factorial(k)), order)
     if nm == "drexp":
         return M1, rays.power_sum(M2, lambda k: Fraction((-1) ** k, factorial(k + 1)), order)
-    if nm in ("logexp", "d2rminus", "sqnorm", "unitnorm"):
+    if nm in ("logexp", "d2rminus", "sqnorm", "unitnorm", "rm_sq") or nm in LAYER2:
         return M1, M2
     if nm == "drinv":
         return rays.mat_mul(M1, M2), rays.mat_id(len(M1))
@@ -223,13 +262,13 @@ def expected(nm, M1, M2, order):
 TSCALE = 10 ** 7
 
 
-def run(rep, tier, prop, names, tol, full_order=8, variants=1, rule=None, minimum=None):
+def run(rep, tier, prop, names, tol, full_order=8, variants=1, rule=None, minimum=None, what=None):
     rule = rule or ("T." + prop)
     gs = [g for g in groups.catalogue("quick")]
     if tier == "thorough":
         gs += [g for g in groups.catalogue("thorough") if g.key in ("SE_1_3d", "B_SE3d_SO2d_V3d_C1d", "B_nested")]
         variants = max(variants, 2)
-    rep.rule(rule, "closed-form path reproduces the defining series along rational rays to order %d; on every other path (polynomial branch of a small-angle switch) the first differing term is below %g at the largest t that selects it" % (full_order, tol), minimum=minimum if minimum is not None else len(names) * 4)
+    rep.rule(rule, (what + ": " if what else "") + "closed-form path reproduces the defining series along rational rays to order %d; on every other path (polynomial branch of a small-angle switch) the first differing term is below %g at the largest t that selects it" % (full_order, tol), minimum=minimum if minimum is not None else len(names) * 4)
     W = witnesses(gs, names)
     facts = W.build()
     rep.cmds.append(fe.clangxx() + " " + " ".join(fe.IR_FLAGS))
